@@ -257,6 +257,36 @@ def run_checks(ctx, want):
     dl.n = 700
     wired = [lbgen.mixed_episode(ctx.rng, n=40, cb=True, passive=False) for _ in range(400 if ctx.thorough() else 80)]
     dl.check(wired, oracle=None, label="cb-wiring")
+    # the plainest trip there is, through the balancer: F failed answers in a row (every 5xx status, with the headers
+    # real backends put on such answers — Retry-After, problem+json, Connection: close; the harness picks them by
+    # request number) and the next request is not forwarded
+    trips_lb = []
+    for F in (1, 2, 3):
+        for status in (500, 502, 503, 504, 599):
+            for base in range(4):
+                ops = ["# wired-trip %d" % F, "lb new round_robin 0 2 1 0 0 0 1 %d 1 1 0 60" % F, "lb add b0 1 good"]
+                t = 10**9
+                for i in range(F):
+                    ops += ["lb begin %d %d - - 10.0.0.1:1" % (base + 4 * i, t), "lb end %d %d %d" % (base + 4 * i, t + 1000, status)]
+                    t += 10**6
+                ops.append("lb begin %d %d - - 10.0.0.1:1" % (base + 4 * F + 1, t))
+                trips_lb.append(ops)
+
+    def wired_trip_oracle(ep, outs):
+        if not ep or not ep[0].startswith("# wired-trip"):
+            return []
+        F = int(ep[0].split()[2])
+        ol = C.op_lines(ep)
+        if len(ol) != 2 + 2 * F + 1:
+            return []                       # (a shrunk episode)
+        fails = []
+        for l, o in zip(ol[2:-1], outs[2:-1]):
+            if l.split()[1] == "begin" and not o.startswith("fwd "):
+                fails.append("closed breaker, fewer than %d failures so far, request not forwarded: %s -> %s" % (F, l, o))
+        if not fails and not outs[-1].startswith("resp 503"):
+            fails.append("%d consecutive failed answers (%s) and the next request is still forwarded: %s -> %s" % (F, ol[3].split()[4], ol[-1], outs[-1]))
+        return fails
+    dl.check(trips_lb, oracle=wired_trip_oracle, label="cb-wired-trip")
     ctx.cov["wiring_episodes"] = len(wired)
     if "C07" in want:
         from . import c03
